@@ -175,6 +175,8 @@ StopThreads ==
 
 SetBreak(l) == ncmd < MaxCmds /\ ncmd' = ncmd + 1 /\ l \notin bp /\ bp' = bp \cup {l} /\ UNCHANGED <<ip, pc, is, depth, susp, missed>>
 RmBreak(l) == ncmd < MaxCmds /\ ncmd' = ncmd + 1 /\ l \in bp /\ bp' = bp \ {l} /\ UNCHANGED <<ip, pc, is, depth, susp, missed>>
+\* disabling keeps the entry but switches it off; it may be repeated (also for a line which is off already or unknown)
+DisableBreak(l) == ncmd < MaxCmds /\ ncmd' = ncmd + 1 /\ bp' = bp \ {l} /\ UNCHANGED <<ip, pc, is, depth, susp, missed>>
 
 \* an action together with its entry in the history: what the harness has to do and what it must then observe
 Act(name, t, arg, A) ==
@@ -197,6 +199,7 @@ Next ==
   \/ \E t \in Threads, c \in ContTypes : Act("Continue", t, c, Continue(t, c))
   \/ Act("StopThreads", 0, "", StopThreads)
   \/ \E l \in Lines : Act("SetBreak", 0, ToString(l), SetBreak(l)) \/ Act("RmBreak", 0, ToString(l), RmBreak(l))
+                        \/ Act("DisableBreak", 0, ToString(l), DisableBreak(l))
 
 Spec == Init /\ [][Next]_vars
 
